@@ -200,7 +200,9 @@ func bindings() []*binding {
 			fromCbor: blockfetch.NewMsgFromCbor, syms: []symBinding{
 				sb("RequestRange",
 					func() protocol.Message { return blockfetch.NewMsgRequestRange(pointA, pointA) },
-					func() protocol.Message { return blockfetch.NewMsgRequestRange(pointO, pcommon.NewPoint(1<<64-1, hash32)) }),
+					func() protocol.Message {
+						return blockfetch.NewMsgRequestRange(pointO, pcommon.NewPoint(1<<64-1, hash32))
+					}),
 				sb("ClientDone", func() protocol.Message { return blockfetch.NewMsgClientDone() }),
 				sb("StartBatch", func() protocol.Message { return blockfetch.NewMsgStartBatch() }),
 				sb("NoBlocks", func() protocol.Message { return blockfetch.NewMsgNoBlocks() }),
